@@ -158,8 +158,8 @@ Record ghost := mkGhost {
   reaped : nat;                (* reap actions performed (join.reap, detach.reap, finisher's own) *)
   desc_alloc : nat; desc_freed : nat; stack_alloc : nat; stack_freed : nat;
   stack_sz : Z;                (* requested stack size (0 = default class) *)
-  t_ret : option nat;          (* clock of the return / exit *)
-  t_ready2 : option nat }.     (* clock of the FREE_READY2 store *)
+  t_ret : nat;                 (* clock of the return / exit (0 = not yet; the clock starts at 1) *)
+  t_ready2 : nat }.            (* clock of the FREE_READY2 store (0 = not yet) *)
 
 Record thread := mkThread {
   status : Z;
@@ -171,7 +171,7 @@ Record thread := mkThread {
   cb : cbpc;
   gh : ghost }.
 
-Definition ghost0 : ghost := mkGhost 0 0 None None None false 0 0 0 0 0 0 None None.
+Definition ghost0 : ghost := mkGhost 0 0 None None None false 0 0 0 0 0 0 0 0.
 Definition tnone : thread := mkThread 0 None false None 0 NoThread CbNone ghost0.
 
 (** the completed joins: (joiner, target, value read, clock of the reap step) *)
@@ -213,7 +213,7 @@ Definition g_started (g : ghost) (a : Z) : ghost :=
           (stack_alloc g) (stack_freed g) (stack_sz g) (t_ret g) (t_ready2 g).
 Definition g_returned (g : ghost) (v : Z) (now : nat) : ghost :=
   mkGhost (runs g) (garg g) (got g) (Some v) (claimed g) (rdone g) (reaped g) (desc_alloc g) (desc_freed g)
-          (stack_alloc g) (stack_freed g) (stack_sz g) (Some now) (t_ready2 g).
+          (stack_alloc g) (stack_freed g) (stack_sz g) now (t_ready2 g).
 Definition g_claim (g : ghost) (c : option nat) : ghost :=
   mkGhost (runs g) (garg g) (got g) (retv g) c (rdone g) (reaped g) (desc_alloc g) (desc_freed g)
           (stack_alloc g) (stack_freed g) (stack_sz g) (t_ret g) (t_ready2 g).
@@ -229,7 +229,7 @@ Definition g_free_stack (g : ghost) : ghost :=
           (stack_alloc g) (S (stack_freed g)) (stack_sz g) (t_ret g) (t_ready2 g).
 Definition g_ready2 (g : ghost) (now : nat) : ghost :=
   mkGhost (runs g) (garg g) (got g) (retv g) (claimed g) (rdone g) (reaped g) (desc_alloc g) (desc_freed g)
-          (stack_alloc g) (stack_freed g) (stack_sz g) (t_ret g) (Some now).
+          (stack_alloc g) (stack_freed g) (stack_sz g) (t_ret g) now.
 
 (* ---- state access ---- *)
 Fixpoint upd {A} (l : list A) (i : nat) (x : A) : list A :=
@@ -262,10 +262,10 @@ Definition opt_is_none {A} (o : option A) : bool := match o with None => true | 
 
 (** thread 0 is the main thread of the process: it exists from the start and runs its program *)
 Definition thread_main0 : thread :=
-  mkThread 0 None false None 0 Idle CbNone (mkGhost 1 0 (Some 0) None None false 0 1 0 1 0 0 None None).
+  mkThread 0 None false None 0 Idle CbNone (mkGhost 1 0 (Some 0) None None false 0 1 0 1 0 0 0 0).
 
 Definition init_state (n : nat) : state :=
-  mkState (thread_main0 :: repeat tnone n) 0 false false [].
+  mkState (thread_main0 :: repeat tnone n) 1 false false [].
 
 (* ------------------------------------------------------------------------------------------ *)
 (** * Creation *)
@@ -275,7 +275,7 @@ Definition init_state (n : nat) : state :=
     [det]: what the code stores into [detached]. *)
 Definition new_thread (creator : nat) (st : settings) (det : bool) (argv : Z) : thread :=
   mkThread ST_READY None det None argv (Created (s_cf st)) CbNone
-    (mkGhost 0 argv None None (if s_det st then Some creator else None) (s_det st) 0 1 0 1 0 (s_stack st) None None).
+    (mkGhost 0 argv None None (if s_det st then Some creator else None) (s_det st) 0 1 0 1 0 (s_stack st) 0 0).
 
 Definition do_create (cfg : config) (s : state) (j c : nat) (a : option attr) (nullid : bool) (argv : Z) : option state :=
   if (c <? List.length (thr s))%nat && pc_is_nothread (main (gt s c)) then
